@@ -1815,6 +1815,19 @@ rrul_fill_Hly(echs_instant_t *restrict tgt, size_t nti, rrulsp_t rr)
 		H_mask = ~H_mask;
 	}
 
+	/* check that INTERVAL can meet the hour mask at all,
+	 * the hours of the day we visit repeat after 24 steps */
+	with (unsigned int t = H, k) {
+		for (k = 0U; k < 24U; k++, t = (t + rr->inter % 24U) % 24U) {
+			if (H_mask & (1U << t)) {
+				break;
+			}
+		}
+		if (UNLIKELY(k >= 24U)) {
+			goto fin;
+		}
+	}
+
 	/* fill up the array the naive way */
 	for (unsigned int w = ymd_get_wday(y, m, d), yd = ymd_get_yd(y, m, d),
 		     maxd = __get_ndom(y, m), maxy = (y % 4U) ? 365 : 366;
@@ -2029,6 +2042,21 @@ rrul_fill_Mly(echs_instant_t *restrict tgt, size_t nti, rrulsp_t rr)
 	/* check ranges before filling */
 	if (UNLIKELY(y < 1600U || !m || m > 12U || !d || d > 31U)) {
 		goto fin;
+	}
+
+	/* check that INTERVAL can meet the time-of-day masks at all,
+	 * the minutes of the day we visit repeat after 1440 steps */
+	with (unsigned int t = H * 60U + M, k) {
+		for (k = 0U; k < 1440U; k++,
+			     t = (t + rr->inter % 1440U) % 1440U) {
+			if ((H_mask & (1U << (t / 60U))) &&
+			    (M_mask & (1ULL << (t % 60U)))) {
+				break;
+			}
+		}
+		if (UNLIKELY(k >= 1440U)) {
+			goto fin;
+		}
 	}
 
 	/* fill up the array the naive way */
